@@ -13,10 +13,10 @@ import (
 
 // A Tree is a template directory written to a private scratch root before each case.
 type Tree struct {
-	Dir       string            `json:"dir"`                 // TemplateDir as passed to the configuration (relative to the scratch root)
-	RealDir   string            `json:"real_dir,omitempty"`  // directory the files are written to when Dir is a non-canonical spelling
-	Ext       string            `json:"ext"`                 // TemplateExt
-	Files     map[string]string `json:"files"`               // path relative to RealDir/Dir (with extension) -> content
+	Dir       string            `json:"dir"`                // TemplateDir as passed to the configuration (relative to the scratch root)
+	RealDir   string            `json:"real_dir,omitempty"` // directory the files are written to when Dir is a non-canonical spelling
+	Ext       string            `json:"ext"`                // TemplateExt
+	Files     map[string]string `json:"files"`              // path relative to RealDir/Dir (with extension) -> content
 	ErrorPage string            `json:"error_page,omitempty"`
 	Debug     bool              `json:"debug,omitempty"`
 	Extra     []string          `json:"extra_dirs,omitempty"` // additional directories to create (relative to the scratch root)
